@@ -20,6 +20,8 @@ From RX.Spec Require Import Detector.
 From RX.Proofs Require Import DetectorProofs OptionsParam OptionsBuild OptionsMain OptionsDtd BudgetStream BudgetTok BudgetBuild BudgetAcct BudgetMain BudgetNoEnt BudgetBytesBuild BudgetBytesTok BudgetBytesAcct BudgetBytesMain CycleStream CycleContent CycleAttr CycleEntered.
 From RX.Spec Require Cst CstText CstEnt.
 From RX.Proofs Require Import CstMain CstTextMain CstEntMain CstEntRejSem CstEntRejTrace CstEntRejMain.
+From RX.Spec Require CstFull CstFullS4 CstFullS6.
+From RX.Proofs Require CstNsView CstFullS6Main CstFullRejSem CstFullRejTrace CstFullRejDoc CstFullRejMain.
 Open Scope N_scope.
 
 (* ---- Proofs/BudgetMain.v ---- *)
@@ -116,6 +118,80 @@ Proof. exact budget_exceeded_rejected_ent. Qed.
 Print Assumptions C09_budget_exceeded_rejected_ent.
 
 End G3.
+
+(* ---- Proofs/CstFullRejMain.v ---- *)
+Module G4.
+Import RX.Spec.CstFull. Import RX.Spec.CstFullS4. Import RX.Spec.CstFullS6. Import RX.Proofs.CstNsView. Import RX.Proofs.CstFullS6Main. Import RX.Proofs.CstFullRejSem. Import RX.Proofs.CstFullRejTrace. Import RX.Proofs.CstFullRejDoc. Import RX.Proofs.CstFullRejMain.
+Theorem C09_limits_decide_full_s6 :
+  forall (d : S6.doc) (opt : options) (cT : CstFull.doc bpieces) (tr : list Detector.lop),
+  wf_syntax6 d = true -> ginline6 d = Some (cT, tr) ->
+  provisos_item (d_root cT) = true ->
+  forallb (ns_ok []) (den bmeaning (d_root cT)) = true ->
+  (S6.has_dtd d = true -> allow_dtd opt = true) ->
+  N.of_nat (length (usem6 d cT)) < nodes_limit opt ->
+  N.of_nat (length (usem6 d cT)) < u32_max ->
+  N.of_nat (vattrs (usem6 d cT)) < u32_max ->
+  CstFull.distinct_decls_le bmeaning cT (N.to_nat 65535) ->
+  1 + N.of_nat (CstFull.ns_cost bmeaning cT) <= u32_max ->
+  (Detector.within_limits 10 255 0 0 tr = true ->
+     exists x, parse (S6.render d) opt = Ok x /\ view (S6.render d) x = Some (usem6 d cT) /\
+               S6.wf_doc d = true /\ S6.sem d = usem6 d cT) /\
+  (Detector.within_limits 10 255 0 0 tr = false ->
+     exists pos, parse (S6.render d) opt = Err (EntityReferenceLoop pos)) /\
+  ((exists x, parse (S6.render d) opt = Ok x) <-> Detector.within_limits 10 255 0 0 tr = true) /\
+  ((exists pos, parse (S6.render d) opt = Err (EntityReferenceLoop pos)) <-> Detector.within_limits 10 255 0 0 tr = false).
+Proof. exact limits_decide_full_s6. Qed.
+Print Assumptions C09_limits_decide_full_s6.
+
+Theorem C09_cycle_rejected_full_s6 :
+  forall (d : S6.doc) (opt : options) (cT : CstFull.doc bpieces) (tr : list Detector.lop),
+  wf_syntax6 d = true -> ginline6 d = Some (cT, tr) ->
+  provisos_item (d_root cT) = true ->
+  forallb (ns_ok []) (den bmeaning (d_root cT)) = true ->
+  (S6.has_dtd d = true -> allow_dtd opt = true) ->
+  N.of_nat (length (usem6 d cT)) < nodes_limit opt ->
+  N.of_nat (length (usem6 d cT)) < u32_max ->
+  N.of_nat (vattrs (usem6 d cT)) < u32_max ->
+  CstFull.distinct_decls_le bmeaning cT (N.to_nat 65535) ->
+  1 + N.of_nat (CstFull.ns_cost bmeaning cT) <= u32_max ->
+  cyclic_doc6 d ->
+  exists pos, parse (S6.render d) opt = Err (EntityReferenceLoop pos).
+Proof. exact cycle_rejected_full_s6. Qed.
+Print Assumptions C09_cycle_rejected_full_s6.
+
+Theorem C09_depth_exceeded_rejected_full_s6 :
+  forall (d : S6.doc) (opt : options) (cT : CstFull.doc bpieces) (tr : list Detector.lop) (L : nat),
+  wf_syntax6 d = true -> ginline6 d = Some (cT, tr) ->
+  provisos_item (d_root cT) = true ->
+  forallb (ns_ok []) (den bmeaning (d_root cT)) = true ->
+  (S6.has_dtd d = true -> allow_dtd opt = true) ->
+  N.of_nat (length (usem6 d cT)) < nodes_limit opt ->
+  N.of_nat (length (usem6 d cT)) < u32_max ->
+  N.of_nat (vattrs (usem6 d cT)) < u32_max ->
+  CstFull.distinct_decls_le bmeaning cT (N.to_nat 65535) ->
+  1 + N.of_nat (CstFull.ns_cost bmeaning cT) <= u32_max ->
+  (11 <= L)%nat -> deep_doc6 d L ->
+  exists pos, parse (S6.render d) opt = Err (EntityReferenceLoop pos).
+Proof. exact depth_exceeded_rejected_full_s6. Qed.
+Print Assumptions C09_depth_exceeded_rejected_full_s6.
+
+Theorem C09_budget_exceeded_rejected_full_s6 :
+  forall (d : S6.doc) (opt : options) (cT : CstFull.doc bpieces) (tr : list Detector.lop),
+  wf_syntax6 d = true -> ginline6 d = Some (cT, tr) ->
+  provisos_item (d_root cT) = true ->
+  forallb (ns_ok []) (den bmeaning (d_root cT)) = true ->
+  (S6.has_dtd d = true -> allow_dtd opt = true) ->
+  N.of_nat (length (usem6 d cT)) < nodes_limit opt ->
+  N.of_nat (length (usem6 d cT)) < u32_max ->
+  N.of_nat (vattrs (usem6 d cT)) < u32_max ->
+  CstFull.distinct_decls_le bmeaning cT (N.to_nat 65535) ->
+  1 + N.of_nat (CstFull.ns_cost bmeaning cT) <= u32_max ->
+  over_budget_doc6 d ->
+  exists pos, parse (S6.render d) opt = Err (EntityReferenceLoop pos).
+Proof. exact budget_exceeded_rejected_full_s6. Qed.
+Print Assumptions C09_budget_exceeded_rejected_full_s6.
+
+End G4.
 
 (* ---- Proofs/DetectorProofs.v ---- *)
 Theorem C09_enter_agrees_model :
